@@ -15,10 +15,11 @@ CONSTANTS
  Tries = 2
  NextHop = 4 Unstable = 24 CacheTO = 4 Inactive = 8 RemoveDelay = 2 SweepEvery = 2 PingEvery = 3 MaxTime = 1000
  CreateGuard = TRUE
- MaxCircuits = 1 MaxData = 0 MaxLoss = 0 MaxDup = 1 MaxAdv = 1 MaxNow = 4
- Goals = {2}
+ MaxCircuits = 1 MaxData = 0 MaxLoss = 0 MaxDup = 0 MaxAdv = 2 MaxNow = 0
+ Goals = {1, 2}
  Origins = {o}
  AdvKinds = {"mangle"}
+ NodeRank <- RankDef
  AdvSrcs = {adv}
  TrackWire = FALSE
  UseIds = FALSE
